@@ -68,8 +68,10 @@ def Ctx.init : Ctx :=
   { state := "START", prev := "NONE", depth := 0, stack := [], embedded := "NONE", typeDepth := 0, log := [] }
 
 inductive Ev where
-  /-- `hidden` = the element carries introspectable="0" (atoi = 0) or a shadowed-by attribute -/
-  | start (name : String) (hidden : Bool)
+  /-- `hidden` = what introspectable_prelude computes: the element carries introspectable="0" (atoi = 0) or a
+      shadowed-by attribute; `intro0` = the introspectable attribute alone (atoi = 0), which is all the
+      hand-written test of start_member looks at -/
+  | start (name : String) (hidden : Bool) (intro0 : Bool)
   | stop (name : String)
   deriving Repr, DecidableEq
 
@@ -80,7 +82,7 @@ def stateSwitch (c : Ctx) (s : String) : Except String Ctx :=
   else .ok { c with prev := c.state, state := s, depth := if s = "PASSTHROUGH" then 1 else c.depth }
 
 /-- start_element_handler -/
-def startEv (c : Ctx) (name : String) (hidden : Bool) : Except String Ctx :=
+def startEv (c : Ctx) (name : String) (hidden : Bool) (intro0 : Bool := hidden) : Except String Ctx :=
   if c.state = "PASSTHROUGH" then .ok { c with depth := c.depth + 1 }
   else
     match lookup c.state name (!c.stack.isEmpty) with
@@ -94,6 +96,9 @@ def startEv (c : Ctx) (name : String) (hidden : Bool) : Except String Ctx :=
           -- start_function inside a field: remember where to come back to
           pure (if r.handler == "start_function" && Gen.c15CEmbeddedStates.contains c.state
                 then { c2 with embedded := c.state } else c2)
+      else if Gen.c15COwnIntroTest.contains r.handler && intro0 then
+        -- start_member: `if (introspectable && atoi (introspectable) == 0) { state_switch (ctx, STATE_PASSTHROUGH); return TRUE; }`
+        stateSwitch { c with log := c.log ++ ["~" ++ name] } "PASSTHROUGH"
       else if r.switch then do
         let c1 ← stateSwitch { c with log := c.log ++ ["+" ++ name] } r.target
         pure (if r.target == "TYPE" then { c1 with typeDepth := 1 } else c1)
@@ -186,7 +191,7 @@ def endEv (c : Ctx) (name : String) : Except String Ctx :=
     | none => .error s!"Unhandled state {c.state} in end_element_handler"
 
 def step (c : Ctx) : Ev → Except String Ctx
-  | .start n h => startEv c n h
+  | .start n h i => startEv c n h i
   | .stop n => endEv c n
 
 /-- the event loop: the first error stops the parse -/
